@@ -17,7 +17,7 @@ from typing import Dict, List, Optional
 from ..front_py import AnalysisError, FuncInfo, walk_local, norm, dotted
 from ..dataflow import Defs, stores_in
 from ..effects import Unsupported
-from .codec_py import (ENC, DEC, find_cursor_class, Prims, parser_type_classes, find_dispatcher, grammar_of, canon_effects, lin, lin_eq, fmt_lin)
+from .codec_py import (ENC, DEC, find_cursor_class, Prims, parser_type_classes, find_dispatcher, grammar_of, canon_effects, check_bypasses, lin, lin_eq, fmt_lin)
 
 
 def strip_roles(s: str) -> str:
@@ -41,6 +41,7 @@ def run(eng, rep) -> None:
     rep.rule("R01.5", "sign reconstruction takes the negative branch exactly for word >= 2^(N-1)")
     rep.rule("R01.6", "struct pack/unpack use the same format and the byte count of that format")
     rep.rule("R01.7", "no module-level mutable state is read-and-written on the codec path")
+    rep.rule("R01.8", "container decoders obtain every element through the type dispatcher; a direct read is admissible only for element classes whose handler returns the raw word")
     rep.assume("Python integers are unbounded; struct.pack/unpack are exact for f32/f64; native struct format on a little-endian host")
     rep.assume("value plumbing (which datum goes with which transfer) beyond prefix/flag relations is not decided")
     cc = find_cursor_class(eng)
@@ -51,6 +52,7 @@ def run(eng, rep) -> None:
     grams: Dict[str, Dict[str, str]] = {"enc": {}, "dec": {}}
     fmts: Dict[str, Dict[str, list]] = {"enc": {}, "dec": {}}
     disp = {}
+    bypassed = set()
     for side, root in (("enc", ENC), ("dec", DEC)):
         d = find_dispatcher(eng, root)
         if d is None:
@@ -63,6 +65,8 @@ def run(eng, rep) -> None:
                 g = canon_effects(effs, side)
                 grams[side][kn] = g
                 fmts[side][kn] = it.fmt_pairs
+                if side == "dec" and check_bypasses(eng, rep, "R01.8", pr, d, P, kn, effs):
+                    bypassed.add(kn)
                 top_raise = any(e[0] == "raise" for e in effs)
                 rep.check(not top_raise, "R01.1", d.file, d.qual, "dispatch of %s" % kn, "handled: %s" % g[:80], "no branch for %s: the fall-through raises (any schema using this type cannot be %sd)" % (kn, "encode" if side == "enc" else "decode"))
             except Unsupported as u:
@@ -76,6 +80,8 @@ def run(eng, rep) -> None:
             continue
         if "Raise" in a or "Raise" in b:
             continue  # reported by R01.1
+        if kn in bypassed:
+            continue  # decided (or declared undecided) by R01.8
         rep.check(strip_roles(a) == b, "R01.2", disp["enc"].file, "%s / %s" % (disp["enc"].qual, disp["dec"].qual), "Eff(%s)" % kn, "enc = dec = %s" % b,
                   "encoder performs [%s] but decoder performs [%s]" % (a, b))
     # R01.3 / R01.4
